@@ -10,7 +10,8 @@ CONSTANTS CWs, TWs, SameW,
           CAlpha, MaxCLen, KC,        \* character n-gram pool and max. number of entries
           TAlpha, MaxTLen, KT,        \* type n-gram pool (type codes)
           DAlpha, MaxDLen, KD,        \* dictionary word pool
-          KTotal, TextAlpha, MaxText, MinText, ZeroHit
+          KTotal, TextAlpha, MaxText, MinText, ZeroHit,
+          WMode                       \* 0: fingerprint weights; 1: "cancelling" weights (see CancelNg / CancelDict)
 VARIABLES cw, tw, cset, tset, dset
 
 Pool(alpha, lo, hi) == SeqsOf(alpha, lo, hi)
@@ -36,12 +37,40 @@ Next == /\ Total < KTotal
 \* weights: a fingerprint of (kind, entry index, slot) with mixed signs, inside the i16 range
 FP(kind, i, k) == (IF (i + k + kind) % 2 = 0 THEN 1 ELSE -1) * (kind * 1000 + i * 97 + k * 7 + 1)
 
+(* Cancelling weights (WMode = 1): an entry that has a proper suffix in its own set votes exactly against the sum of   *)
+(* those suffixes on every boundary it covers, so that occurrences of the longer entry contribute nothing through the    *)
+(* pair (implementations that merge suffix weights into the longer entry obtain an all-zero merged vector); entries   *)
+(* without a suffix in the set keep fingerprint weights, but only on the slots that EVERY entry of the set covers.      *)
+(* A dictionary word additionally votes against the character n-grams it ends with, where their windows lie inside it. *)
+ProperSuffixes(g, S) == {x \in S : Len(x) < Len(g) /\ SubSeq(g, Len(g) - Len(x) + 1, Len(g)) = x}
+MaxLenIn(S) == IF S = {} THEN 0 ELSE Max({Len(x) : x \in S})
+IdxIn(g, sq) == CHOOSE i \in 1..Len(sq) : sq[i] = g
+RECURSIVE CancelNg(_, _, _, _, _)
+CancelNg(g, S, sq, W, kind) ==
+  LET n == 2 * W - Len(g) + 1
+      common == 2 * W - MaxLenIn(S) + 1
+      ps == ProperSuffixes(g, S)
+  IN IF ps = {} THEN [k \in 1..n |-> IF k <= common THEN FP(kind, IdxIn(g, sq), k) ELSE 0]
+     ELSE [k \in 1..n |-> 0 - SumFun([x \in ps |-> CancelNg(x, S, sq, W, kind)[k]], ps)]
+RECURSIVE CancelDict(_, _, _, _, _, _)
+CancelDict(g, D, dsq, C, csq, W) ==
+  LET n == Len(g)
+      pw == ProperSuffixes(g, D)
+      pc == {x \in C : Len(x) <= n /\ SubSeq(g, n - Len(x) + 1, n) = x}
+  IN IF pw = {} /\ pc = {} THEN [k \in 1..(n + 1) |-> FP(3, IdxIn(g, dsq), k)]
+     ELSE [k \in 1..(n + 1) |->
+             0 - SumFun([x \in pw |-> WeightAt(CancelDict(x, D, dsq, C, csq, W), k - (n - Len(x)))], pw)
+               - SumFun([x \in pc |-> WeightAt(CancelNg(x, C, csq, W, 1), k - n + W)], pc)]
+
 Model0 ==
   LET cs == SetToSeq(cset)  ts == SetToSeq(tset)  ds == SetToSeq(dset) IN
   [bias |-> 0, cw |-> cw, tw |-> tw,
-   cng |-> [i \in 1..Len(cs) |-> [ng |-> cs[i], w |-> [k \in 1..(2 * cw - Len(cs[i]) + 1) |-> FP(1, i, k)]]],
-   tng |-> [i \in 1..Len(ts) |-> [ng |-> ts[i], w |-> [k \in 1..(2 * tw - Len(ts[i]) + 1) |-> FP(2, i, k)]]],
-   dict |-> [i \in 1..Len(ds) |-> [ng |-> ds[i], w |-> [k \in 1..(Len(ds[i]) + 1) |-> FP(3, i, k)]]],
+   cng |-> [i \in 1..Len(cs) |-> [ng |-> cs[i], w |-> IF WMode = 1 THEN CancelNg(cs[i], cset, cs, cw, 1)
+                                                      ELSE [k \in 1..(2 * cw - Len(cs[i]) + 1) |-> FP(1, i, k)]]],
+   tng |-> [i \in 1..Len(ts) |-> [ng |-> ts[i], w |-> IF WMode = 1 THEN CancelNg(ts[i], tset, ts, tw, 2)
+                                                      ELSE [k \in 1..(2 * tw - Len(ts[i]) + 1) |-> FP(2, i, k)]]],
+   dict |-> [i \in 1..Len(ds) |-> [ng |-> ds[i], w |-> IF WMode = 1 THEN CancelDict(ds[i], dset, ds, cset, cs, cw)
+                                                       ELSE [k \in 1..(Len(ds[i]) + 1) |-> FP(3, i, k)]]],
    tags |-> <<>>]
 
 Texts == SeqsOf(TextAlpha, MinText, MaxText)
